@@ -10,8 +10,8 @@ import json,sys
 m=json.load(open(sys.argv[1]))
 m['id']=sys.argv[3]
 m['demo_cmd']=m.get('demo_cmd','').replace('/tmp/mut/'+sys.argv[3],'<worktree>')
-m['confirmed']={'how':'tools/confirm_seeded.sh in the scratch worktree: go build ./... ok; root-module suite (without the demonstration file) passes with the change; demonstration fails with the change and passes with the change stashed',
- 'base_commit':__import__('subprocess').check_output(['git','-C','/repo','rev-parse','--short','HEAD']).decode().strip()}
+m['confirmed']={'how':'tools/confirm_seeded.sh in the scratch worktree: go build ./... ok; root-module suite (without the demonstration file) passes with the change; demonstration fails with the change and passes with the change reverse-applied',
+ 'base_commit':__import__('os').environ.get('BASE_COMMIT') or __import__('subprocess').check_output(['git','-C','/repo','rev-parse','--short','HEAD']).decode().strip()}
 m['checks']=sys.argv[4]
 json.dump(m,open(sys.argv[2],'w'),indent=1)
 PY
